@@ -704,6 +704,8 @@ class Folder:
         return res
 
     def _bound_builtin(self, obj: Any, name: str, args, kwargs) -> Any:
+        if any(is_unknown(a) for a in list(args) + list(kwargs.values())):
+            return Unknown(name + " of an unknown argument")  # (`d.get(<unknown>)` is not `None`)
         try:
             if isinstance(obj, dict):
                 if name == "get":
